@@ -146,12 +146,14 @@ def san_env(extra=None):
     return env
 
 
-def run_stage(pid, exe, st, tier, seed, outdir, datadir, known, extra=None):
+def run_stage(pid, exe, st, tier, seed, outdir, datadir, known, extra=None, only_worker=None):
     kind = st.get("kind", "enum")
     n = st.get("workers", NCPU)
     budget = st["thorough"] if tier == "thorough" else st["quick"]
     procs = []
     for i in range(n):
+        if only_worker is not None and i != only_worker:
+            continue
         wseed = derive_seed(seed, pid, st["name"], i)
         env = san_env(st.get("env"))
         if kind == "rc":
@@ -181,6 +183,22 @@ def merge_hashes(files):
         return 0
     p = subprocess.run([hashmerge_exe()] + files, stdout=subprocess.PIPE, text=True)
     return int(p.stdout.strip() or 0)
+
+
+def rerun_worker(pid, exe, st, tier, seed, outdir, datadir, known, extra, worker):
+    """Re-execute one worker of a (deterministic) stage exactly as the stage ran it.  Used when a failure does not
+    reproduce from its case alone: the code under test may keep state between validations, and then the reproducible
+    unit is the worker's whole run.  Returns the list of failures it reported (crash = one pseudo failure)."""
+    d = os.path.join(outdir, "rerun"); shutil.rmtree(d, ignore_errors=True); os.makedirs(d)
+    res = run_stage(pid, exe, st, tier, seed, d, datadir, known, extra, only_worker=worker)
+    out = []
+    for r in res:
+        if r["data"] is None:
+            if r["rc"] not in (0, 2):
+                out.append(dict(cls="crash", explain="worker died (exit %d): %s" % (r["rc"], r["log"][-500:])))
+        else:
+            out += r["data"]["failures"]
+    return out
 
 
 def write_replay(pid, stage, f, extra=None):
@@ -293,6 +311,17 @@ def main():
         if a.replay:
             rp = json.load(open(a.replay))
             exe = exes[rp.get("binary") or P["default_binary"]]
+            if rp["case"].startswith("rerun="):
+                sname, w = rp["case"][6:].split(":")
+                st = next(s for s in PROPS[pid]["stages"] if s["name"] == sname)
+                fl = rerun_worker(pid, exe, st, rp.get("tier", a.tier), int(rp.get("seed", a.seed)), outdir, datadir, set(opens), ctx.get("replay_args"), int(w))
+                for g in fl[:3]:
+                    print("REPLAY-FAIL %s: %s" % (g["cls"], g["explain"][:1500]))
+                if fl:
+                    print("VIOLATION property=%s replay=%s" % (pid, os.path.abspath(a.replay)))
+                    return 1
+                print("REPLAY-PASS")
+                return 0
             rc, out = replay_case(exe, rp["case"], datadir, ctx.get("replay_args"))
             print(out.strip()[-3000:])
             if rc != 0:
@@ -374,6 +403,7 @@ def main():
                     # an oracle failure found by a fuzz stage carries the property's own case: replayed by the default binary
                     f["binary"] = None if (st.get("kind") == "fuzz" and not f["case"].startswith("fuzz=")) else st.get("binary")
                     f["stage"] = st["name"]
+                    f["worker"] = r["worker"]
                     violations.append(f)
                 if r["rc"] not in (0, 3) and not d["failures"]:
                     infra.append("stage %s worker %d exit %d: %s" % (st["name"], r["worker"], r["rc"], r["log"][-500:]))
@@ -396,6 +426,23 @@ def main():
                     confirmed = f
                     break
                 log("failure did not reproduce 3x (%s): %s" % (rcs, f["case"][:200]))
+            if confirmed is None:
+                # not reproducible from the case alone: is it reproducible as "this worker's whole run"?  (state that the
+                # code under test keeps between validations makes a verdict depend on the worker's earlier inputs)
+                for f in violations[:3]:
+                    st = next((s for s in stages if s["name"] == f.get("stage")), None)
+                    if st is None or st.get("runner") or st.get("kind", "enum") not in ("enum", "rc") or "worker" not in f:
+                        continue
+                    exe = exes[st.get("binary") or P["default_binary"]]
+                    again = [rerun_worker(pid, exe, st, a.tier, a.seed, outdir, datadir, set(opens), ctx.get("replay_args"), f["worker"]) for _ in range(2)]
+                    if all(again):
+                        g = again[0][0]
+                        confirmed = dict(cls=g["cls"], stage=f["stage"], binary=st.get("binary"),
+                                         case="rerun=%s:%d" % (f["stage"], f["worker"]),
+                                         explain="reproducible only as the whole run of worker %d of stage '%s' (tier %s, seed %d), not from the single case: the verdict depends on what the process validated earlier. %s"
+                                                 % (f["worker"], f["stage"], a.tier, a.seed, g["explain"]))
+                        break
+                    log("failure did not reproduce by re-running worker %s of stage %s either" % (f.get("worker"), f.get("stage")))
             if confirmed is None:
                 infra.append("oracle failures were reported but none reproduced from its replay case: " + json.dumps(violations[0])[:600])
 
